@@ -123,7 +123,9 @@ void Runner::op_start(Thread *t, int idx, const Op &op, OpRes &res) {
   }
   static const char *const wds[] = { nullptr, "/work", "/missing", "/tmp/existing", ".", "sub" };
   b.o.working_directory = wds[s.wd >= 0 && s.wd < 6 ? s.wd : 0];
-  if (!s.argv_null) {
+  if (s.argv_empty) {
+    b.argv.push_back(nullptr);
+  } else if (!s.argv_null) {
     b.argv.push_back(prog_string(s.prog));
     for (auto &a : s.args) b.argv.push_back(a.c_str());
     b.argv.push_back(nullptr);
@@ -153,7 +155,7 @@ void Runner::op_start(Thread *t, int idx, const Op &op, OpRes &res) {
   t->next_spec = s.child;
 
   api_begin(t, idx, op.h, -1);
-  ShimRet r = api->start(hp, s.argv_null ? nullptr : b.argv.data(), b.o);
+  ShimRet r = api->start(hp, s.argv_null && !s.argv_empty ? nullptr : b.argv.data(), b.o);
   // ---- fork mode: we may now be the child
   if (t->child) {
     Proc *c = t->child;
@@ -194,8 +196,18 @@ void Runner::op_start(Thread *t, int idx, const Op &op, OpRes &res) {
         t->api_depth = sv;
         mine[q] = fd; mine_ofd[q] = o->id;
       }
+      // ... and its standard streams, which are what start connected for it
+      int std_ofd[3];
+      for (int q = 0; q < 3; q++) { FdEnt *e = k->fdent(t->child, q); std_ofd[q] = e ? e->ofd->id : -1; }
       void *p = api->destroy(hp);
       if (p) viol("C15", "destroy-returned-non-null", "state=in-child", "reproc_destroy in the forked child did not return NULL", idx);
+      for (int q = 0; q < 3; q++) {
+        FdEnt *e = k->fdent(t->child, q);
+        if (std_ofd[q] >= 0 && (!e || e->ofd->id != std_ofd[q])) {
+          viol("C15", "destroy-in-child-closed-foreign-descriptor", fmt("stream=%d", q), fmt("the forked child's own descriptor %d was closed by reproc_destroy", q), idx);
+          viol("C05", "foreign-close", "op=destroy/in-child", fmt("close(%d): reproc_destroy in the forked child closed the child's own standard stream", q), idx);
+        }
+      }
       for (int q = 0; q < 3; q++) {
         if (mine[q] < 0) continue;
         FdEnt *e = k->fdent(t->child, mine[q]);
@@ -439,6 +451,14 @@ void Runner::check_image(Thread *t, Proc *c, ExecImage *img) {
     if (img->disp[sg] != D_DFL) {
       viol("C12", "child-disposition-not-default", fmt("was=%s", img->disp[sg] == D_IGN ? "ignored" : "handled"),
            fmt("signal %d is %s in the child", sg, img->disp[sg] == D_IGN ? "ignored" : "handled"), idx);
+      break;
+    }
+  }
+  for (int sg = 1; sg < 32; sg++) {  // (the library resets the classic signals 1-31, as for the dispositions above)
+    if (sg == SIGKILL || sg == SIGSTOP) continue;
+    if (img->sa_flags[sg] != 0) {
+      viol("C12", "child-disposition-flags-kept", fmt("mode=%s", forked ? "fork" : "exec"),
+           fmt("signal %d keeps the caller's sa_flags %#x in the child (SA_NOCLDWAIT, SA_RESTART, SA_SIGINFO ... belong to the caller's handlers)", sg, img->sa_flags[sg]), idx);
       break;
     }
   }
